@@ -111,23 +111,24 @@ def step (tbl : Tbl) (limit : Nat) (s : St) : Ev → Except Err St
     -- pushed as further arguments; the frame is popped; `amount` values below the new function
     -- (locals, the current function, the excess object) are removed; then `do_call`
     match s.frames with
-    | fr :: rest =>
+    | fr :: p :: rest =>
       if s.values < fr.offset + n + 1 then .error .stuck
       else if fr.offset < 1 + exc fr then .error .stuck
-      else doCall tbl limit { values := fr.offset + n + fr.excess - exc fr, frames := rest } c (n + fr.excess)
-    | [] => .error .stuck
+      else doCall tbl limit { values := fr.offset + n + fr.excess - exc fr, frames := p :: rest } c (n + fr.excess)
+    | _ => .error .stuck
   | .ret c =>
     -- thread.rs:2527-2565: pop the frame, `slide(len)` leaves the result in the function slot;
     -- with excess arguments: drop the excess object, push its fields, call the result
+    -- (the bottom frame is the host's `State::Unknown` frame, which never returns)
     match s.frames with
-    | fr :: rest =>
+    | fr :: p :: rest =>
       if s.values < fr.offset + 1 then .error .stuck
       else if fr.offset < 1 + exc fr then .error .stuck
-      else if fr.excess = 0 then .ok { values := fr.offset, frames := rest }
+      else if fr.excess = 0 then .ok { values := fr.offset, frames := p :: rest }
       else match c with
-        | some c => doCall tbl limit { values := fr.offset - 1 + fr.excess, frames := rest } c fr.excess
+        | some c => doCall tbl limit { values := fr.offset - 1 + fr.excess, frames := p :: rest } c fr.excess
         | none => .error .stuck
-    | [] => .error .stuck
+    | _ => .error .stuck
 
 def run (tbl : Tbl) (limit : Nat) (s : St) : List Ev → Except Err St
   | [] => .ok s
